@@ -222,6 +222,11 @@ def rate(ctx, P, view):
             okf = unparse(g.iter) == "self.all_individuals" and unparse(comp.elt) == unparse(g.target) and len(g.ifs) == 1 and guards.norm(g.ifs[0], unparse) == ("truth", "%s.with_server" % unparse(g.target))
     if not okf:
         problems.append(("in-service-filter", "exactly the customers flagged with_server share the server"))
+    # every call re-projects: no early exit, the per-customer loop is not conditional
+    for r_ in [x for x in ast.walk(fn) if isinstance(x, (ast.Return, ast.Raise))]:
+        problems.append(("early-exit", "update_all_service_end_dates must always re-project (an early `%s` leaves a customer that has just started without an end date)" % unparse(r_)))
+    if loops and any(isinstance(a_, (ast.If, ast.While)) for a_ in _ancestors(loops[0], fn)):
+        problems.append(("conditional-reprojection", "the re-projection loop must run on every call"))
     ob.ok("bookkeeping")
     for reason, msg in problems:
         ctx.violation(ob, "R5.ps-rate", "PSNode.update_all_service_end_dates", reason, reason, msg, loc(fn))
